@@ -96,6 +96,13 @@ func VerifFenceProbe(vt *VerifTable, pos string, parkMillis int) (VerifFenceResu
 	if pos == "mid" {
 		// the index selection of a table of a few rows takes well under parkMillis; if it has not finished, the
 		// publication lands before or inside it, which is another legal schedule (the oracle holds for all)
+		for i := 0; i < 5000; i++ { // under load: wait until the query holds the fence (correct code keeps it while parked)
+			if !tst.snapshotPublicationMu.TryLock() {
+				break
+			}
+			tst.snapshotPublicationMu.Unlock()
+			time.Sleep(time.Millisecond)
+		}
 		time.Sleep(time.Duration(parkMillis) * time.Millisecond)
 		publish()
 		out.PublishedWhileHeld = waitApplied(time.Duration(parkMillis) * time.Millisecond)
